@@ -262,6 +262,9 @@ func (s *fakeSup) Exec(ctx context.Context, req *supvmodel.ExecRequest) error {
 		p.a.runScript(script.Steps)
 		// a script that ends without exit leaves the process alive and idle
 	}()
+	if lag := s.h.sc.Config.ExecReturnLagMs[role]; lag > 0 {
+		time.Sleep(time.Duration(lag) * time.Millisecond)
+	}
 	return nil
 }
 
@@ -277,11 +280,10 @@ func (p *proc) die(signo, status *int32, why string) bool {
 	p.cancel()
 	p.a.closeConns()
 	delay := time.Duration(p.h.sc.Config.ExitEventDelayMs[p.role]) * time.Millisecond
-	// a real process cannot exit (and be reported) before Exec has returned and the orchestrator has
-	// created its exit channel; keep clear of that window (DESIGN 3.4)
-	if min := 20*time.Millisecond - time.Since(p.execRet); delay < min {
-		delay = min
-	}
+	// (The first version kept every exit report at least 20 ms clear of Exec's return, on the argument that a real
+	// process cannot be reported dead before the orchestrator has noted that it started. Under load the orchestrator's
+	// goroutine was seen to lag more than that, the report overtook the bookkeeping and the emulator died: a finding, fix
+	// 2f581f5. A process may be reported dead as early as it likes now.)
 	p.h.record(Event{Actor: "sup", Kind: "sup.died", Proc: p.name, Text: why})
 	p.h.pending.Add(1)
 	go func() {
